@@ -274,6 +274,63 @@ def tfSample (num den : List K) (dt : Dt) (Ts : ℚ) (method : C2dMethod) (alpha
 
 end runtime
 
+/-! ### the sampling-period argument (C14 strengthening: `Ts = True`, second step) -/
+
+/-- The sampling period as `sample` receives it: a number, or the Python value `True`
+("discrete time, period unspecified").  NumPy / SciPy use `True` as the number 1 in every formula
+(`True * A`, `tan(ω * True / 2)`), while the constructor `StateSpace(Ad, Bd, C, D, Ts)` /
+`TransferFunction(numd, dend, Ts)` stores the argument itself: the result's timebase is `True`,
+not `1.0`. -/
+inductive Period where
+  | num (q : ℚ)
+  | btrue
+  deriving DecidableEq, Repr
+
+/-- the number the formulas compute with. -/
+def Period.val : Period → ℚ
+  | .num q => q
+  | .btrue => 1
+
+/-- the timebase stored in the result. -/
+def Period.dt : Period → Dt
+  | .num q => .disc q
+  | .btrue => .dtrue
+
+section period
+
+variable {K : Type} [Field K] [LinearOrder K] [IsStrictOrderedRing K]
+
+/-- `StateSpace.sample` with the period argument as given (number or `True`): the numbers are
+those of `DSS.sample` at `P.val`, the stored timebase is `P.dt`. -/
+def DSS.sampleP (G : DSS K) (P : Period) (method : C2dMethod) (alpha : Option K)
+    (pw : Option (Prewarp K))
+    (ext : Option (Matrix (Fin G.n ⊕ Fin G.m) (Fin G.n ⊕ Fin G.m) K)) : Except Err (DSS K) :=
+  match G.sample P.val method alpha pw ext with
+  | .error e => .error e
+  | .ok R => .ok ⟨R.n, R.p, R.m, R.sys, P.dt⟩
+
+/-- `TransferFunction.sample` (generalised bilinear family) with the period argument as given. -/
+def tfSampleP (num den : List K) (dt : Dt) (P : Period) (method : C2dMethod) (alpha : Option K)
+    (pw : Option (Prewarp K)) : Except Err (List K × List K × Dt) :=
+  match tfSample num den dt P.val method alpha pw with
+  | .error e => .error e
+  | .ok r => .ok (r.1, r.2.1, P.dt)
+
+/-- second step of a history: the sampled system is combined (series / parallel / feedback all go
+through `common_timebase`) with a system of timebase `other`; `sampledFirst` says which operand
+the sampled system is. -/
+def joinDt (P : Period) (other : Dt) (sampledFirst : Bool) : Except Err Dt :=
+  if sampledFirst then common P.dt other else common other P.dt
+
+end period
+
+/-- `_c2d_matched` with the period argument as given. -/
+def c2dMatchedP {K : Type} [Field K] [DecidableEq K] (num den : List K) (zeros poles : List K)
+    (E : K → K) (P : Period) : Except Err (List K × List K × Dt) :=
+  match c2dMatched num den zeros poles E P.val with
+  | .error e => .error e
+  | .ok r => .ok (r.1, r.2.1, P.dt)
+
 /-! ### names and signal labels -/
 
 /-- system name (`none` = a generic `sys[id]`) and signal labels. -/
